@@ -67,6 +67,21 @@ type fail16 struct {
 	detail string
 }
 
+// watchCtx is the run whose library calls are watched for hangs (kit.Enter/Leave).
+var watchCtx *kit.Ctx
+
+func enter(class string, trace interface{}, detail string) {
+	if watchCtx != nil {
+		watchCtx.Enter(func() kit.HangInfo { return kit.HangInfo{Class: class, Key: class, Detail: detail, Trace: trace} })
+	}
+}
+
+func leave() {
+	if watchCtx != nil {
+		watchCtx.Leave()
+	}
+}
+
 var strPairs = [][2]string{{"X ", "  "}, {"1", "0"}, {"##", ".."}, {"x", "_"}}
 var lineSeps = []string{"\n", "\r\n", "\r", "\n\n"}
 
@@ -229,6 +244,7 @@ func exec16(tr *Trace16, probes func(string)) (f *fail16, at int, executed int) 
 	w := &world16{}
 	for i, op := range tr.Ops {
 		var skipped bool
+		enter(op.K+"/hang", tr, fmt.Sprintf("step %d (%s) or the queries after it", i, opString(op)))
 		f, skipped = w.step(op, probes)
 		if !skipped {
 			executed++
@@ -241,6 +257,7 @@ func exec16(tr *Trace16, probes func(string)) (f *fail16, at int, executed int) 
 				f.detail = fmt.Sprintf("after step %d (%s): %s", i, opString(op), f.detail)
 			}
 		}
+		leave()
 		if f != nil {
 			return f, i, executed
 		}
@@ -1112,6 +1129,7 @@ func C16() *kit.Spec {
 			return 130 * 8 * 201 // 209,040 histories
 		},
 		Run: func(c *kit.Ctx) {
+			watchCtx = c
 			tr := gen16(c)
 			if c.Run < 3 {
 				c.Sample(tr)
@@ -1124,6 +1142,7 @@ func C16() *kit.Spec {
 				c.Fatal("bad trace: " + err.Error())
 				return
 			}
+			watchCtx = c
 			runTrace16(c, tr, false)
 		},
 		Extra: func(tier string, cov map[string]interface{}) {
